@@ -555,7 +555,13 @@ def rule_axis(prog: Program, modules: Set[str]) -> List[Instance]:
             # ---------------- T5 (i): X +/- Y
             if isinstance(n, ast.BinOp) and isinstance(n.op, (ast.Add, ast.Sub)):
                 l, r = ty.tag(n.left), ty.tag(n.right)
-                if l and r:
+                row = _affine_row(n, ty)
+                if row is not None:
+                    cid = _cid(fi, "T5:affine-row", n, counter)
+                    okr, desc = row
+                    out.append(Instance("R-AXIS", cid, OK if okr else BAD,
+                                        f"row of a linear map: {desc}" if okr else f"`{short(n, 70)}`: {desc}", fi.where(n)))
+                elif l and r:
                     cid = _cid(fi, "T5:addsub", n, counter)
                     if l == r:
                         out.append(Instance("R-AXIS", cid, OK, f"{l} {'+' if isinstance(n.op, ast.Add) else '-'} {r}", fi.where(n), nontrivial=True))
@@ -586,6 +592,33 @@ def rule_axis(prog: Program, modules: Set[str]) -> List[Instance]:
                             else:
                                 out.append(Instance("R-AXIS", cid, BAD, f"`{short(n)}` compares an {tl} coordinate with the {tr} extent", fi.where(n)))
     return out
+
+
+def _affine_row(n: ast.BinOp, ty: "AxisTyper") -> Optional[Tuple[bool, str]]:
+    """`M.a * x + M.b * y` (or `M.d * x + M.e * y`): one row of an affine's linear part applied to a vector.
+    Mixing the axes is the point; what must hold is the pairing a,d <-> x and b,e <-> y."""
+    if not isinstance(n.op, ast.Add):
+        return None
+    terms = []
+    for t in (n.left, n.right):
+        if not (isinstance(t, ast.BinOp) and isinstance(t.op, ast.Mult)):
+            return None
+        coef = next((x for x in (t.left, t.right) if isinstance(x, ast.Attribute) and x.attr in ("a", "b", "d", "e")), None)
+        if coef is None:
+            return None
+        vec = t.right if coef is t.left else t.left
+        terms.append((coef, vec))
+    (c1, v1), (c2, v2) = terms
+    if short(c1.value) != short(c2.value):
+        return None
+    pair = {c1.attr, c2.attr}
+    if pair not in ({"a", "b"}, {"d", "e"}):
+        return (False, f"coefficients .{c1.attr} and .{c2.attr} are not one row of the matrix (rows are a,b and d,e)")
+    want = {"a": X, "d": X, "b": Y, "e": Y}
+    bad = [(c.attr, ty.tag(v)) for c, v in terms if ty.tag(v) is not None and ty.tag(v) != want[c.attr]]
+    if bad:
+        return (False, f"matrix column mismatch: {['.%s multiplies a %s quantity' % b_ for b_ in bad]} (a,d multiply x; b,e multiply y)")
+    return (True, f".{c1.attr}*{short(v1, 12)} + .{c2.attr}*{short(v2, 12)}")
 
 
 def _looks_affine(val: ast.AST, fi: FuncInfo) -> bool:
